@@ -30,6 +30,7 @@ func raceEnv(hasDB bool) *env {
 	defer raceMu.Unlock()
 	if raceEnvs[hasDB] == nil {
 		raceEnvs[hasDB] = newEnv(hasDB, false, nil)
+		sharedEnvs = append(sharedEnvs, raceEnvs[hasDB])
 	}
 	return raceEnvs[hasDB]
 }
